@@ -102,17 +102,29 @@ def size(seq):
     return sum(1 + (size(e[1]) if e[0] in ("Br", "Star") else 0) for p in seq for e in p)
 
 
-IMPORTS = ("From TxV Require Import Core.Base Core.Show Model.Rx Model.RrelSyntax Model.RrelSyntaxText.\n"
-           "Open Scope string_scope.\n"
+IMPORTS_HEAD = ("From TxV Require Import Core.Base Core.Show Model.Rx Model.RrelSyntax Model.RrelSyntaxText.\n"
+                "Open Scope string_scope.\n")
+IMPORTS_DEFS = (
            # printing long strings is what costs time in coqc: texts and dumps are compared through a hash
            "Fixpoint hs (s : string) (h : N) : N := match s with EmptyString => h\n"
            "  | String a t => hs t (N.modulo (h * 1000003 + Ascii.N_of_ascii a) 1099511627776) end.\n"
-           "Definition rt (e : expr) : string := match parse_text ascii_only (print_src e) with\n"
+           "Definition rt (e : expr) : string := match parse_text U (print_src e) with\n"
            "  | Some e' => if String.eqb (show_expr e') (show_expr e) then \"=\" else show_N (hs (show_expr e') 7)\n"
            "  | None => \"None\" end.\n"
            "Definition tr (e : expr) : string := show_N (hs (show_str (print_src e)) 7) ++ \" \" ++ rt e ++ \" \" ++ show_bool (lexable e).\n"
-           "Definition pt (s : list N) : string := match parse_text ascii_only s with Some e => show_N (hs (show_expr e) 7) | None => \"None\" end.\n"
-           "Definition ptf (s : list N) : string := show_opt show_expr (parse_text ascii_only s).")
+           "Definition pt (s : list N) : string := match parse_text U s with Some e => show_N (hs (show_expr e) 7) | None => \"None\" end.\n"
+           "Definition ptf (s : list N) : string := show_opt show_expr (parse_text U s).")
+
+
+def ucls_table(texts):
+    """Python's classification (bit 0 \\d, bit 1 \\w, bit 2 \\s) of the non-ASCII code points of the texts:
+    the parameter `u` of the model (the theorem holds for every u)."""
+    cps = sorted({c for t in texts for c in t if ord(c) >= 128})
+    ent = []
+    for c in cps:
+        v = (1 if re.match(r"\d", c) else 0) | (2 if re.match(r"\w", c) else 0) | (4 if re.match(r"\s", c) else 0)
+        ent.append("(%d%%N, %d%%N)" % (ord(c), v))
+    return "Definition U : N -> N := ucls_of_table [%s].\n" % "; ".join(ent)
 
 
 def hs(text):
@@ -244,7 +256,7 @@ def untuple(seq):
 
 def run(chk):
     chk.prove([rrel_syntax_tr.translate])
-    n = 3000 if chk.thorough else 380
+    n = 3000 if chk.thorough else 340
     ctrees, ctexts = load_corpus()
     asts = list(CORPUS) + ctrees
     for i in range(n):
@@ -254,13 +266,14 @@ def run(chk):
     # the model's own text is fetched wherever its hash differs
     mine = [p_expr(seq, fl) for seq, fl in asts]
     muts = list(ctexts)
-    nm = 2500 if chk.thorough else 330
+    nm = 2500 if chk.thorough else 300
     for i in range(nm):
         r = chk.rng.split("m%d" % i)
         t = r.choice(mine)
         for _ in range(r.range(1, 3)):
             t = mutate(r, t)
         muts.append(t)
+    IMPORTS = IMPORTS_HEAD + ucls_table(mine + muts) + IMPORTS_DEFS
     exprs = ["tr {| eseq := %s; eflags := %s |}" % (c_seq(seq), c_str(fl)) for seq, fl in asts] + ["pt %s" % c_str(t) for t in muts]
     allvals, errs = core.coq_eval("C12a", IMPORTS, exprs, shard=450)
     vals, mvals = allvals[:len(asts)], allvals[len(asts):]
